@@ -34,12 +34,14 @@ def _run(ctx, q, rng, env):
         # all singletons of every kind / route type; all pairs for one representative shape per kind
         cases += L.gen_cases(ctx, L.base_consts(MaxDests=2, MaxOpts=1, DeepKinds={"route", "gnet", "rewriter"},
                                                 DeepTypes={"sendAllMatch"}, DeepDests=2, DeepOpts=2))
-        cases += L.gen_cases(ctx, L.base_consts(MaxDests=3, NVals=2, MaxOpts=99), simulate="num=10", depth=9)
+        # larger subsets: only kinds with >= 7 options, so that every behaviour gets deep
+        cases += L.gen_cases(ctx, L.base_consts(Kinds={"route", "gnet", "agg"}, MaxDests=3, NVals=2, MaxOpts=99),
+                             simulate="num=4", depth=9)
     else:
         cases += L.gen_cases(ctx, L.base_consts(MaxDests=3, MaxOpts=2, NVals=1), timeout=3000)
-        cases += L.gen_cases(ctx, L.base_consts(Kinds={"route", "gnet", "agg"}, RouteTypes={"sendFirstMatch"}, MaxDests=2,
-                                                MaxOpts=2, NVals=2), timeout=3000)
-        cases += L.gen_cases(ctx, L.base_consts(MaxDests=3, NVals=2, MaxOpts=99), simulate="num=150", depth=14, timeout=3000)
+        cases += L.gen_cases(ctx, L.base_consts(Kinds={"gnet", "agg"}, MaxOpts=2, NVals=2), timeout=3000)
+        cases += L.gen_cases(ctx, L.base_consts(Kinds={"route", "gnet", "agg"}, MaxDests=3, NVals=2, MaxOpts=99),
+                             simulate="num=8", depth=14, timeout=3000)
     ngen = len(cases)
     cases = L.dedup(cases)
     ctx.log("cases: %d generated, %d distinct" % (ngen, len(cases)))
@@ -61,7 +63,7 @@ def _run(ctx, q, rng, env):
     else:
         texts = L.gen_texts(ctx, ["$", "{", "}", "HOST", "GRAFANA_NET_USER_ID", "1", "x", ".", ")"], 5, timeout=3000)
         texts += L.gen_texts(ctx, ["$", "{", "}", "HOST", "GRAFANA_NET_ADDR", "GRAFANA_NET_API_KEY", "GRAFANA_NET_USER_ID",
-                                   "1", "x", "HOSTNAME", ".", ")", " ", "-", "/", "^", "(", "\\"], 16,
+                                   "1", "x", "HOSTNAME", ".", ")", " ", "-", "/", "^", "("], 16,
                              simulate="num=200", depth=17, timeout=3000)
     seen, tl = set(), []
     for t in texts:
